@@ -50,7 +50,8 @@ inductive Act where
   deriving DecidableEq, Repr
 
 def sigTermNo : Nat := 15
-def polls : Nat := 50            -- 5000 ms / 100 ms
+/-- polls per bounded wait: the budget divided by the poll interval, both taken from step-exec.c -/
+def polls : Nat := Gen.runnerKillWaitMs / Gen.runnerKillPollMs
 
 /-- `exitstatus`, and a caught signal never yields success -/
 def exitOf (st : WStatus) (got : Option Sig) : Nat :=
